@@ -162,7 +162,8 @@ pub fn jacobi_eigenvalues(a: &[f64], n: usize) -> Vec<f64> {
             }
         }
         let diag: f64 = (0..n).map(|i| m[i * n + i] * m[i * n + i]).sum();
-        if off <= 1e-34 * diag.max(f64::MIN_POSITIVE) {
+        // off/diag are sums of squares: 1e-30 is (1e-15)^2 relative, below f64 resolution
+        if off <= 1e-30 * diag.max(f64::MIN_POSITIVE) || !off.is_finite() {
             break;
         }
         for p in 0..n {
@@ -188,11 +189,14 @@ pub fn jacobi_eigenvalues(a: &[f64], n: usize) -> Vec<f64> {
                     m[p * n + k] = c * apk - s * aqk;
                     m[q * n + k] = s * apk + c * aqk;
                 }
+                // the rotation annihilates this pair by construction
+                m[p * n + q] = 0.0;
+                m[q * n + p] = 0.0;
             }
         }
     }
     let mut ev: Vec<f64> = (0..n).map(|i| m[i * n + i]).collect();
-    ev.sort_by(|a, b| a.partial_cmp(b).unwrap());
+    ev.sort_by(|a, b| a.partial_cmp(b).unwrap_or(std::cmp::Ordering::Equal));
     ev
 }
 
@@ -245,6 +249,15 @@ pub fn selftest() -> Result<(), String> {
     let ev = jacobi_eigenvalues(&[2.0, 1.0, 1.0, 2.0], 2);
     if (ev[0] - 1.0).abs() > 1e-14 || (ev[1] - 3.0).abs() > 1e-14 {
         return Err(format!("jacobi {:?}", ev));
+    }
+    // tridiagonal(-1,2,-1) of order 4: eigenvalues 2 - 2cos(k*pi/5)
+    let t = [2.0, -1.0, 0.0, 0.0, -1.0, 2.0, -1.0, 0.0, 0.0, -1.0, 2.0, -1.0, 0.0, 0.0, -1.0, 2.0];
+    let ev = jacobi_eigenvalues(&t, 4);
+    for k in 1..=4 {
+        let want = 2.0 - 2.0 * (k as f64 * std::f64::consts::PI / 5.0).cos();
+        if (ev[k - 1] - want).abs() > 1e-13 {
+            return Err(format!("jacobi 4x4 {:?}", ev));
+        }
     }
     let l = cholesky(&a, 3).ok_or("chol")?;
     let llt = matmul(&l, &transpose(&l, 3, 3), 3, 3, 3);
